@@ -52,12 +52,32 @@
    request FAILED in Exec after TERMINATE had been set, the session is saved with DIRTY and the next
    request renders the page once (finding K-C06-dirty, props/C06.v: C06_blocked_refuted_dirty,
    C06_blocked_request_weak, C06_terminated_stays_blocked).
+   FOLLOW-UP (proofs/FlagProofs2.v, composing SafetyProofs): the invariant end_inv is no longer a
+   hypothesis.  C20_history_store_invariant: every stored session reachable by ANY history from a
+   new session (persisted driver, per-request fuel) satisfies end_inv, and has no pending code other
+   than a single MOVE while its position is empty; C20_graceful_end_history_partial: after any
+   history, a request that is a graceful end answers as C20_graceful_end says and stores path [],
+   index 0, no code, exactly ONE EMPTY cache scope, use size 0, TERMINATE/DIRTY clear, every other
+   flag and the language kept, and every next accepted request runs MOVE <root> from the empty
+   position in that cache - with NO invariant hypothesis.  Guards (one decidable predicate
+   c20_guards a c, plus c_first c = None): SafetyProofs' wf_app_b, cfg_okb, no CROAK (K-C08-croak),
+   vals_small, and two more the new invariant "nothing is stored while the position is empty"
+   needs: has_node a [] = false (no node with the empty name; necessary: refuted side by side,
+   C20_graceful_end_history_refuted_anon - "_" at the entry node empties the position,
+   GetCode("") succeeds, the anonymous node's LOAD lands in the base scope and the next graceful end
+   leaves it there) and quiet_catch_b a (the _catch node reaches a HALT before any MOVE / INCMP /
+   CATCH, as every catch node of the corpus and the documentation does; used to show that the
+   recovery run of Render after a browse error cannot leave the session without a position while
+   code is pending - I found no history violating the theorem without this guard, so it is a
+   proof guard, possibly removable).
+   Long-lived engine: C20_graceful_end_long (initialised engine whose last output was delivered;
+   entry function or not).
    FALSE with an entry function (K-C20-first): C20_terminated_refuted_first - an entry function that
    sets TERMINATE makes its request report stop with its text, the session is not saved, and the
    next request is served normally; a session terminated otherwise outputs a stale value when
    blocked (C06_blocked_refuted_first). *)
 From Vise Require Import Bytes Errors Consts EngConsts Codec CacheModel StateModel NavModel NavSpec RenderModel
-  VmModel EngineModel CacheProofs VmProofs FlagProofs.
+  VmModel EngineModel CorrBase EngineCorr EngineMon CacheProofs VmProofs SafetyProofs FlagProofs FlagProofs2.
 Local Open Scope N_scope.
 
 Theorem C20_end_of_run_cases : forall fuel rs sep lang b v v',
@@ -201,6 +221,91 @@ Theorem C20_blocked_until_cleared : forall fuel rs c inputs p st ca,
      map (fun _ => mkResp false SOk [] FOk) inputs).
 Proof. exact blocked_until_cleared. Qed.
 
+(* ---- follow-up: the session invariant over all histories ------------------------------------------- *)
+Theorem C20_history_store_invariant : forall a c w lg h st ca,
+  c20_guards a c = true -> c_first c = None ->
+  pw_store (fst (hist_pers (app_rsrc a) c (mkPw None w lg false) h)) = Some (st, ca) ->
+  (nav_inv st ca /\ CInv ca /\ hd_error (c_frames ca) = Some [])
+  /\ (s_path st = [] -> s_code st = [] \/ exists t, wf_sym t /\ s_code st = encode (IMove t)).
+Proof. exact history_store_end_inv. Qed.
+
+Theorem C20_graceful_end_history_partial : forall a c w lg h fuel input st ca v1 v' page,
+  c20_guards a c = true -> c_first c = None ->
+  let rs := app_rsrc a in
+  let p := fst (hist_pers rs c (mkPw None w lg false) h) in
+  pw_store p = Some (st, ca) ->
+  accepted_b input = true -> (reset_req c input = false \/ s_path st = []) -> stale st = false ->
+  run fuel rs (c_sep c) (s_lang st) (prep_code c st)
+      (mkVm (set_code (prep_state c st input) []) ca (new_vm_page (c_out c) (c_sep c)) (pw_w p) (pw_log p) false) = (v1, [], SOk) ->
+  getf (v_st v1) FLAG_TERMINATE = false ->
+  vm_render fuel rs (c_sep c) (s_lang (v_st v1)) (exiting_vm v1) = (v', RROk page) ->
+  s_path (v_st v') <> [] ->
+  exists st' ca',
+    request_persisted fuel rs c p input
+    = (mkPw (Some (st', ca')) (v_w v') (v_log v') (pw_taint p || v_taint v'),
+       if size_overflow c (c_last (v_ca v1)) page
+       then mkResp false SOk [] (FErr EGen)
+       else mkResp false SOk (page ++ c_last (v_ca v1)) FOk)
+    /\ s_path st' = [] /\ s_idx st' = 0 /\ s_code st' = []
+    /\ c_frames ca' = [[]] /\ c_use ca' = 0
+    /\ s_lang st' = s_lang (v_st v')
+    /\ getf st' FLAG_TERMINATE = false /\ getf st' FLAG_DIRTY = false
+    /\ (forall i, i <> FLAG_TERMINATE -> i <> FLAG_DIRTY -> getf st' i = getf (v_st v') i)
+    /\ (forall fuel2 w2 lg2 input2, accepted_b input2 = true ->
+          eng_exec fuel2 rs c (new_engine c (Some (st', ca')) w2 lg2) input2
+          = eng_exec_inner fuel2 rs c (prep_engine c st' ca' w2 lg2 input2)
+          /\ s_code (v_st (e_v (prep_engine c st' ca' w2 lg2 input2))) = encode (IMove (cfg_root c))
+          /\ s_path (v_st (e_v (prep_engine c st' ca' w2 lg2 input2))) = []
+          /\ v_ca (e_v (prep_engine c st' ca' w2 lg2 input2)) = ca').
+Proof. exact graceful_end_history. Qed.
+
+Theorem C20_graceful_end_history_refuted_anon :
+  wf_app_b app_anon cfg_term = true /\ cfg_okb cfg_term = true /\ c_first cfg_term = None
+  /\ has_croak app_anon = false /\ vals_small (c_cachesize cfg_term) app_anon = true /\ quiet_catch_b app_anon = true
+  /\ has_node app_anon [] = true
+  /\ (let '(p, resps) := hist_pers (app_rsrc app_anon) cfg_term (mkPw None [] [] false) hist_anon in
+      last resps (mkResp true SOk [] FOk) = mkResp false SOk (s2b "the endv") FOk
+      /\ option_map (fun sc => (s_path (fst sc), c_frames (snd sc), c_use (snd sc))) (pw_store p)
+         = Some ([], [[(s2b "aa", s2b "v")]], 1)).
+Proof. exact graceful_end_history_refuted_anon. Qed.
+
+Theorem C20_graceful_end_long : forall fuel rs c e input x code v1 v' page,
+  e_initd e = true -> delivered_l e -> accepted_b input = true ->
+  (reset_req c input = false \/ s_path (v_st (e_v e)) = []) ->
+  s_code (v_st (e_v e)) = x :: code -> builtin_flags_ok (v_st (e_v e)) ->
+  run fuel rs (c_sep c) (s_lang (v_st (e_v e))) (x :: code)
+      (vset_st (e_v e) (set_code (set_input_raw (v_st (e_v e)) (Some input)) [])) = (v1, [], SOk) ->
+  getf (v_st v1) FLAG_TERMINATE = false ->
+  vm_render fuel rs (c_sep c) (s_lang (v_st v1)) (exiting_vm v1) = (v', RROk page) ->
+  s_path (v_st v') <> [] ->
+  ended_on_halt v1 /\
+  request_long fuel rs c e input =
+    (mkEng (ended v') true (c_last (v_ca v1)) false true,
+     if size_overflow c (c_last (v_ca v1)) page
+     then mkResp false SOk [] (FErr EGen)
+     else mkResp false SOk (page ++ c_last (v_ca v1)) FOk).
+Proof. exact graceful_end_request_long. Qed.
+
+(* the guards and hypotheses of C20_graceful_end_history_partial are met by corpus graceful-end *)
+Example C20_graceful_history_nonvacuous :
+  c20_guards app_graceful cfg_graceful = true /\ c_first cfg_graceful = None
+  /\ fst (hist_pers rs_graceful cfg_graceful (mkPw None [] [] false) hist_graceful) = p_graceful
+  /\ pw_store p_graceful = Some (g_st, g_ca)
+  /\ accepted_b (s2b "1") = true /\ reset_req cfg_graceful (s2b "1") = false /\ stale g_st = false
+  /\ g_run = (g_v1, [], SOk) /\ getf (v_st g_v1) FLAG_TERMINATE = false
+  /\ g_render = (g_v', RROk (s2b "the end")) /\ s_path (v_st g_v') <> [].
+Proof. exact graceful_history_witness. Qed.
+
+(* long-lived engine on the same corpus: third request *)
+Example C20_graceful_long_nonvacuous :
+  let e := fst (requests_long 100 rs_graceful cfg_graceful (new_engine cfg_graceful None [] []) [[]; s2b "1"]) in
+  e_initd e = true /\ e_execd e = true /\ getf (v_st (e_v e)) FLAG_DIRTY = false /\ e_exiting e = false /\ e_exit e = []
+  /\ s_code (v_st (e_v e)) <> []
+  /\ (let '(e', r) := request_long 100 rs_graceful cfg_graceful e (s2b "1") in
+      r = mkResp false SOk (s2b "the end bye") FOk /\ s_path (v_st (e_v e')) = [] /\ c_frames (v_ca (e_v e')) = [[]]
+      /\ e_exit e' = s2b " bye").
+Proof. vm_compute. repeat split; try reflexivity. discriminate. Qed.
+
 (* ---- the entry-function class (K-C20-first) ------------------------------------------------------- *)
 (* corpus "first-terminate": on the second request the entry function returns "blocked" with
    TERMINATE: the request reports stop and outputs "blocked", the session is not saved, and the
@@ -301,6 +406,12 @@ Print Assumptions C20_abnormal_end_request.
 Print Assumptions C20_abnormal_end_then_blocked.
 Print Assumptions C20_blocked_until_cleared.
 Print Assumptions C20_terminated_refuted_first.
+Print Assumptions C20_history_store_invariant.
+Print Assumptions C20_graceful_end_history_partial.
+Print Assumptions C20_graceful_end_history_refuted_anon.
+Print Assumptions C20_graceful_end_long.
+Print Assumptions C20_graceful_history_nonvacuous.
+Print Assumptions C20_graceful_long_nonvacuous.
 Print Assumptions C20_graceful_nonvacuous.
 Print Assumptions C20_graceful_inv_nonvacuous.
 Print Assumptions C20_restart_nonvacuous.
